@@ -79,7 +79,7 @@ class Wrappers:
             return out
         f = "vec_znx_rotate" if kind == "rot" else "vec_znx_automorphism"
         for mk in self.mods:
-            out += [(f, mk, False), (f, mk, True), (f, mk, "one"), (f, mk, "compact"), (f, mk, "grow"), (f, mk, "shrink")]
+            out += [(f, mk, False), (f, mk, True), (f, mk, "one"), (f, mk, "compact"), (f, mk, "compact-clear"), (f, mk, "grow"), (f, mk, "shrink")]
         g = "vec_znx_big_rotate" if kind == "rot" else "vec_znx_big_automorphism"
         for mk in ("fft64", "fft64-generic"):
             if mk in self.mods:
@@ -103,6 +103,14 @@ class Wrappers:
             a.i64[asl:asl + n] = 2 * x
             L.call(f, mod, p, a, 2, n, a, 2, asl)
             ok = a.canaries_ok() and np.array_equal(a.i64[n:2 * n], 2 * a.i64[0:n]) and bool((a.u8[8 * 2 * n:8 * asl] == 0x33).all())
+            return a.i64[0:n].copy() if ok else None
+        if inplace == "compact-clear":    # two limbs compacted in place and the rest of the vector cleared: res_size = 4 > a_size = 2
+            asl = 2 * n + 1
+            a = Buf(8 * 4 * n, fill=0x33)
+            a.i64[0:n] = x
+            a.i64[asl:asl + n] = 2 * x
+            L.call(f, mod, p, a, 4, n, a, 2, asl)
+            ok = a.canaries_ok() and np.array_equal(a.i64[n:2 * n], 2 * a.i64[0:n]) and not a.i64[2 * n:4 * n].any()
             return a.i64[0:n].copy() if ok else None
         if inplace in ("grow", "shrink"):    # in place with unequal sizes: res_size = a_size + 1 (the extra limb, stale before the
             a = Buf(8 * 3 * sl, fill=0x33)   # call, must come out zero) or res_size = a_size - 1 (the last source limb is not output)
@@ -266,7 +274,7 @@ def drive_b(rec, n, full, quick):
                     continue
                 got = W.run(f, mk, ip, p, probe)
                 groups.setdefault(None if got is None else got.tobytes(), []).append(
-                    "%s[%s%s]" % (f, mk, (",inplace, one limb, res_sl != a_sl" if ip == "one" else ",compacted in place" if ip == "compact" else ",inplace, res_size = a_size + 1" if ip == "grow" else ",inplace, res_size = a_size - 1" if ip == "shrink" else ",inplace") if ip else ""))
+                    "%s[%s%s]" % (f, mk, (",inplace, one limb, res_sl != a_sl" if ip == "one" else ",compacted in place" if ip == "compact" else ",compacted in place and the rest cleared" if ip == "compact-clear" else ",inplace, res_size = a_size + 1" if ip == "grow" else ",inplace, res_size = a_size - 1" if ip == "shrink" else ",inplace") if ip else ""))
                 rec.case((f, mk, ip, n, p % (2 * n) if full else p))
             for key, names in groups.items():
                 if key is None:
